@@ -7,7 +7,7 @@ grammar gate; message content order; substdio's short-write loop.
 """
 from qv.core import AnalysisBroken
 from qv.esp import Engine, Outcome, TOP, fs
-from qv.lib import QHooks, transitive_callees, macro_const, lit_arg
+from qv.lib import QHooks, transitive_callees, macro_const, lit_arg, deep_calls
 
 DOC_EXITS = {11, 51, 52, 53, 54, 61, 62, 63, 64, 65, 66, 81, 91}
 NONE, CREATED, DIRTY, FLUSHED, SYNCED, BROKEN = 'NONE', 'CREATED', 'DIRTY', 'FLUSHED', 'SYNCED', 'BROKEN'
@@ -397,6 +397,31 @@ def counter_vars(fn, k):
     return out or {'L:len'}
 
 
+def handler_sites(db):
+    """no signal handler installed in qmail-queue.c reaches the clean-up (shared with C02: files disappear only in the documented order)"""
+    prog = db.program('qmail-queue')
+    main = prog.fn('main', 'qmail-queue.c')
+    out = {}
+    handlers = {}
+    for f_ in [main] + [g_ for g_ in prog.functions() if g_.unit == 'qmail-queue.c' and g_.blocks]:
+        for c in f_.calls():
+            if c.callee and c.callee.startswith('sig_'):
+                for a_ in c.args:
+                    v = a_.strip() if a_ is not None else None
+                    if v is not None and v.k == 'ref' and v.n['d'].startswith('F:'):
+                        handlers.setdefault(v.n['d'][2:], c.callee)
+    if not any(k == 'sig_alarmcatch' for k in handlers.values()):
+        raise AnalysisBroken('qmail-queue.c: no handler is installed with sig_alarmcatch()')
+    for h, how in sorted(handlers.items()):
+        hf = prog.fn(h, 'qmail-queue.c')
+        reach = transitive_callees(prog, hf)
+        bad = reach & {'unlink', 'ftruncate', 'cleanup', 'truncate', 'rename'}
+        out['%s-handler-%s-does-not-clean-up' % ('alarm' if how == 'sig_alarmcatch' else 'signal', h)] = (
+            not bad, '%s:%d' % (hf.unit, hf.line),
+            'handler (installed by %s) reaches %s: a signal arriving after the commit would destroy an accepted message (intd/<n> and todo/<n> are one file)' % (how, sorted(bad)), [])
+    return out
+
+
 def queue_sites(db, rep):
     """qmail-queue main explored once: (rule, instance) -> (ok, where, detail, path); shared with C02, C03, C07, C16"""
     prog = db.program('qmail-queue')
@@ -480,23 +505,8 @@ def run(ctx):
 
     # --- alarm handler must not clean up
     r = rules['C01.5-cleanup-order']
-    from qv.lib import deep_calls
-    handlers = {}
-    for f_ in [main] + [g_ for g_ in prog.functions() if g_.unit == 'qmail-queue.c' and g_.blocks]:
-        for c in f_.calls():
-            if c.callee and c.callee.startswith('sig_'):
-                for a_ in c.args:
-                    v = a_.strip() if a_ is not None else None
-                    if v is not None and v.k == 'ref' and v.n['d'].startswith('F:'):
-                        handlers.setdefault(v.n['d'][2:], c.callee)
-    if not any(k == 'sig_alarmcatch' for k in handlers.values()):
-        raise AnalysisBroken('qmail-queue.c: no handler is installed with sig_alarmcatch()')
-    for h, how in sorted(handlers.items()):
-        hf = prog.fn(h, 'qmail-queue.c')
-        reach = transitive_callees(prog, hf)
-        bad = reach & {'unlink', 'ftruncate', 'cleanup', 'truncate', 'rename'}
-        r.check(not bad, '%s-handler-%s-does-not-clean-up' % ('alarm' if how == 'sig_alarmcatch' else 'signal', h), '%s:%d' % (hf.unit, hf.line),
-                'handler (installed by %s) reaches %s: a signal arriving after the commit would destroy an accepted message (intd/<n> and todo/<n> are one file)' % (how, sorted(bad)))
+    for inst_, v_ in sorted(handler_sites(db).items()):
+        r.check(v_[0], inst_, v_[1], v_[2], v_[3])
 
     # --- the message copy reports read and write errors as such
     from rules import libtab
